@@ -246,6 +246,14 @@ def families(rep, d) -> None:
                               "get": {"operationId": "ovr", "tags": ["t"], "parameters": [{"name": "q", "in": "query", "schema": {"type": "string", "format": "date"}}],
                                       "responses": {"204": {"description": "d"}}}}
     comps = json.loads(json.dumps(endpoint.COMPONENTS))
+    # shared component parameters whose names coincide (same name in another location; names that differ only in case / delimiters)
+    shared = {"TenantH": ("tenant", "header", "tenant"), "TenantQ": ("tenant", "query", "tenant"), "TenantC": ("tenant", "cookie", "tenant"),
+              "PageSizeQ": ("page_size", "query", "page_size"), "PageSizeH": ("Page-Size", "header", "page_size"), "pagesizeQ": ("pageSize", "query", "page_size")}
+    comps.setdefault("parameters", {})
+    for cname, (wire, loc, py) in shared.items():
+        comps["parameters"][cname] = {"name": wire, "in": loc, "schema": endpoint.S}
+    for k2, cname in enumerate(list(shared) + list(reversed(list(shared)))):
+        paths[f"/shared{k2}/end"] = {"get": {"operationId": f"shared{k2}", "tags": ["t"], "parameters": [{"$ref": f"#/components/parameters/{cname}"}], "responses": {"204": {"description": "d"}}}}
     doc = gen.mkdoc(paths=paths, components=comps)
     names, diags = endpoint.python_names(doc)
     g = gen.generate(doc, d / "fam")
@@ -263,10 +271,28 @@ def families(rep, d) -> None:
     calls.append({"id": "ovr", "module": "t.ovr", "variant": "sync_detailed", "secured": False, "raise": False,
                   "kwargs": {ovr.get(("query", "q"), "q"): ["date", True], ovr.get(("header", "q"), "q_header"): ["str", True], ovr.get(("path", "id"), "id"): ["str", True]},
                   "body": None, "served": endpoint.served_spec("none", 204)})
+    order = list(shared) + list(reversed(list(shared)))
+    for k2, cname in enumerate(order):
+        calls.append({"id": f"shared{k2}", "module": f"t.shared{k2}", "variant": "sync_detailed", "secured": False, "raise": False,
+                      "kwargs": {shared[cname][2]: ["str", True]}, "body": None, "served": endpoint.served_spec("none", 204)})
     out = endpoint.run_calls(d, "fam", calls)
     if "__crash__" in out:
         rep.violate("C03/families-package-broken", out["__crash__"][-400:])
         return
+    for k2, cname in enumerate(order):
+        wire, loc, py = shared[cname]
+        o = out[f"shared{k2}"]
+        rep.count(1, ("family", "shared-component-parameter", k2))
+        if o.get("raised") or o.get("harness_error") or len(o.get("requests", [])) != 1:
+            rep.violate(f"C03/family/shared-parameter/{cname}/call-failed", f"operation using component parameter {cname} ({wire} in {loc}): {o.get('raised') or o.get('harness_error')}")
+            continue
+        r = o["requests"][0]
+        got = {"query": dict(map(tuple, r["query"])).get(wire), "header": r["headers"].get(wire.lower()),
+               "cookie": dict(x.strip().split("=", 1) for x in r["headers"].get("cookie", "").split(";") if "=" in x).get(wire)}
+        elsewhere = [f"query {k3}={v}" for k3, v in map(tuple, r["query"])] if loc != "query" else []
+        if got[loc] != "tok" or elsewhere or (loc != "header" and any(h in r["headers"] for h in ("tenant", "page-size", "page_size"))):
+            rep.violate(f"C03/family/shared-parameter/{cname}/misplaced", f"component parameter {cname} declares `{wire}` in {loc}; the request has query={r['query']} "
+                        f"headers={ {h: v for h, v in r['headers'].items() if h in ('tenant', 'page-size', 'page_size', 'pagesize', 'cookie')} }", request=r)
     for op, kw, args, i, info in plan:
         for variant in ("sync_detailed", "asyncio_detailed"):
             rep.count(1, ("family", i, variant))
